@@ -43,7 +43,7 @@ class ReplayDiverged(Exception):
 class SimThread:
     __slots__ = ('index', 'thread', 'gate', 'state', 'join_target', 'deadline', 'wake_at', 'pending_exc',
                  'pending_delay', 'events', 'ident', 'budget', 'priority', 'frozen_until', 'blocked_on',
-                 'async_landed', 'name', 'op_born', 'zombie', 'done_at')
+                 'async_landed', 'name', 'op_born', 'zombie', 'done_at', 'last_site', 'sent_site', 'student_events')
 
     def __init__(self, index, thread):
         self.index = index
@@ -67,6 +67,9 @@ class SimThread:
         self.op_born = None
         self.zombie = False
         self.done_at = None
+        self.last_site = None
+        self.sent_site = None
+        self.student_events = 0
 
 
 class Scheduler:
@@ -291,6 +294,9 @@ class Scheduler:
             return None          # event in a thread the simulation does not own (never happens by construction)
         self.nevents += 1
         me.events += 1
+        me.last_site = (code.co_filename, code.co_name, line)
+        if kind == 'S':
+            me.student_events += 1
         if me.budget is not None:
             me.budget -= 1
         if self.nevents > self.max_events:
@@ -540,6 +546,18 @@ class _FakePythonApi:
                     st.pending_exc = None
                 else:
                     st.pending_exc = exc
+                    if st.sent_site is None:
+                        # where the thread is at the instant it is given up on: its whole stack (it is parked in the
+                        # monitoring callback right now), innermost frame first, simulator frames left out
+                        stack = []
+                        fr = sys._current_frames().get(tid)
+                        while fr is not None and len(stack) < 40:
+                            fn = fr.f_code.co_filename
+                            if '/verif/sim/' not in fn and 'threading.py' not in fn:
+                                stack.append((fn.rsplit('/', 1)[-1], fr.f_code.co_name))
+                            fr = fr.f_back
+                        st.sent_site = {'stack': stack, 'student_events': st.student_events,
+                                        'started': st.last_site is not None}
                     d = sched.params.get('async_delay')
                     if d is None and sched.rng is not None:
                         d = sched.rng.choice([0, 0, 0, 1, 2])
